@@ -7,6 +7,8 @@ import (
 	"go/ast"
 	"go/token"
 	"go/types"
+	"math"
+	"regexp"
 	"strings"
 
 	"golang.org/x/tools/go/ssa"
@@ -141,6 +143,119 @@ func substCond(res *affResult, c string, v string, repl lin) string {
 	return strings.ReplaceAll(c, best, info.container+"["+ni.String()+"]")
 }
 
+// scFeasibleAt: can the structured conditions hold when variable key has the value repl? Comparisons that do not reduce to
+// a constant or to len(container)+k are kept (feasible); len(container) >= minLen is the caller's hypothesis.
+func scFeasibleAt(sc []affCond, key string, repl lin, container string, minLen float64) bool {
+	return scFeasibleOver(sc, key, []lin{repl}, container, minLen)
+}
+
+// scFeasibleOver: as scFeasibleAt for an index that ranges between the given corner values (the comparisons are linear
+// in the index, so their extremes are at the corners).
+func scFeasibleOver(sc []affCond, key string, corners []lin, container string, minLen float64) bool {
+	for _, c := range sc {
+		l, ok1 := c.l.(lin)
+		r, ok2 := c.r.(lin)
+		if !ok1 || !ok2 {
+			continue
+		}
+		d0 := l.add(r, -1)
+		co0, has := d0.c[key]
+		if !has || co0 == 0 {
+			continue // does not constrain the index
+		}
+		lo, hi := math.Inf(1), math.Inf(-1)
+		known := true
+		for _, repl := range corners {
+			d := linConst(d0.k)
+			for a, c := range d0.c {
+				if a != key {
+					d = d.add(linAtom(a), c)
+				}
+			}
+			d = d.add(repl, co0)
+			clo, chi := d.k, d.k
+			for a, co := range d.c {
+				if co == 0 {
+					continue
+				}
+				if a == "len("+container+")" {
+					if co > 0 {
+						clo += co * minLen
+						chi = math.Inf(1)
+					} else {
+						chi += co * minLen
+						clo = math.Inf(-1)
+					}
+				} else {
+					known = false
+				}
+			}
+			lo, hi = math.Min(lo, clo), math.Max(hi, chi)
+		}
+		if !known {
+			continue
+		}
+		var can, must bool // can the comparison d op 0 be true / is it always true
+		switch c.op {
+		case "==":
+			can, must = lo <= 0 && hi >= 0, lo == 0 && hi == 0
+		case "!=":
+			can, must = !(lo == 0 && hi == 0), lo > 0 || hi < 0
+		case "<":
+			can, must = lo < 0, hi < 0
+		case "<=":
+			can, must = lo <= 0, hi <= 0
+		case ">":
+			can, must = hi > 0, lo > 0
+		case ">=":
+			can, must = hi >= 0, lo >= 0
+		default:
+			continue
+		}
+		if c.neg {
+			can = !must
+		}
+		if !can {
+			return false
+		}
+	}
+	return true
+}
+
+var identRe = map[string]*regexp.Regexp{}
+
+// substVar rewrites the atoms of l: the value variable val becomes the element reference el, the key variable the index.
+func substVar(l lin, val, el, key string, idx lin) lin {
+	out := linConst(l.k)
+	re := func(name string) *regexp.Regexp {
+		if identRe[name] == nil {
+			identRe[name] = regexp.MustCompile(`(^|[^A-Za-z0-9_.])` + regexp.QuoteMeta(name) + `($|[^A-Za-z0-9_])`)
+		}
+		return identRe[name]
+	}
+	for a, c := range l.c {
+		if key != "" && a == key {
+			out = out.add(idx, c)
+			continue
+		}
+		na := a
+		if val != "" {
+			for i := 0; i < 4; i++ {
+				nn := re(val).ReplaceAllString(na, "${1}"+el+"${2}")
+				if nn == na {
+					break
+				}
+				na = nn
+			}
+		}
+		if key != "" {
+			na = re(key).ReplaceAllString(na, "${1}"+idx.String()+"${2}")
+		}
+		out = out.add(linAtom(na), c)
+	}
+	return out
+}
+
 type anchorPt struct {
 	x, y lin
 	ok   bool
@@ -159,12 +274,40 @@ func firstLast(res *affResult, items []affItem, routeVar string) (first, last []
 		}
 		l := it.star
 		var out []anchorPt
+		if l.initLin == nil || l.lastLin == nil || (l.kind == "range" && l.valVar == "" && l.keyVar == "") {
+			return []anchorPt{{ok: false, why: "route starts/ends with the emissions of a loop whose first/last iteration is not known"}}
+		}
+		repl := *l.initLin
+		if !wantFirst {
+			repl = *l.lastLin
+		}
 		for _, p := range l.paths {
+			if l.keyVar != "" && !scFeasibleAt(p.sc, l.keyVar, repl, l.container, 2) {
+				continue // this body path is not taken in the first / last iteration
+			}
+			if l.kind == "for" && l.keyVar != "" {
+				// skip body paths whose condition says that a route end is a helper node (excluded by PAIR-4)
+				skip := false
+				for _, c := range p.cond {
+					cc := substCond(res, c, l.keyVar, repl)
+					if !strings.HasPrefix(cc, "!") && strings.HasSuffix(cc, ".IsVirtual") {
+						if strings.Contains(cc, ".ns[0]") || strings.Contains(cc, ".ns[len(") {
+							skip = true
+						}
+					}
+				}
+				if skip {
+					continue
+				}
+			}
 			var its []affItem
 			for _, v := range p.emits {
 				its = v
 			}
 			if len(its) == 0 {
+				if p.stopped == "" || p.stopped == "continue" {
+					out = append(out, anchorPt{ok: false, why: fmt.Sprintf("the %s iteration may emit no point (path %v)", map[bool]string{true: "first", false: "last"}[wantFirst], p.cond)})
+				}
 				continue
 			}
 			sel := its[0]
@@ -180,29 +323,14 @@ func firstLast(res *affResult, items []affItem, routeVar string) (first, last []
 				out = append(out, anchorPt{ok: false, why: "not a point: " + avalString(sel.val)})
 				continue
 			}
-			if l.kind == "for" && l.keyVar != "" && l.initLin != nil && l.lastLin != nil {
-				repl := *l.initLin
-				if !wantFirst {
-					repl = *l.lastLin
-				}
-				// skip body paths whose condition says that a route end is a helper node (excluded by PAIR-4)
-				skip := false
-				for _, c := range p.cond {
-					cc := substCond(res, c, l.keyVar, repl)
-					if !strings.HasPrefix(cc, "!") && strings.HasSuffix(cc, ".IsVirtual") {
-						if strings.Contains(cc, ".ns[0]") || strings.Contains(cc, ".ns[len(") {
-							skip = true
-						}
-					}
-				}
-				if skip {
-					continue
-				}
+			if l.kind == "for" {
 				x = substIdx(res, x, l.keyVar, repl)
 				y = substIdx(res, y, l.keyVar, repl)
-			} else if l.kind == "range" {
-				out = append(out, anchorPt{ok: false, why: "route starts/ends with a range-loop emission"})
-				continue
+			} else {
+				// range loop: the value variable is container[index], the key variable is the index
+				el := l.container + "[" + repl.String() + "]"
+				x = substVar(x, l.valVar, el, l.keyVar, repl)
+				y = substVar(y, l.valVar, el, l.keyVar, repl)
 			}
 			out = append(out, anchorPt{x, y, true, ""})
 		}
@@ -255,6 +383,7 @@ func routerLoop(res *affResult) *affLoop {
 }
 
 func runAff1(m *Model, r *RuleResult) {
+	routeMinLen(m, r)
 	routers := affRouterNames(m)
 	if m.TypesFunc("internal/phase5", "", "zzVerifPosctlAff1") != nil {
 		routers = append(append([]string{}, routers...), "zzVerifPosctlAff1")
@@ -376,6 +505,65 @@ func runAff1(m *Model, r *RuleResult) {
 	}
 }
 
+// bendFormula: (n.X + n.W/2, n.Y + layer height of n / 2) for the node reference n.
+func bendFormula(x, y lin, n string) []string {
+	var bad []string
+	bx, cx, ok1 := decomposeNode(x)
+	if !ok1 || bx != n || !coefEq(cx, map[string]float64{"X": 1, "W": 0.5}) || x.k != 0 {
+		bad = append(bad, "bend x = "+x.String()+", expected n.X + n.W/2")
+	}
+	okY := y.k == 0 && len(y.c) == 2 && y.c[n+".Y"] == 1
+	for a, c := range y.c {
+		if a == n+".Y" {
+			continue
+		}
+		if c != 0.5 || !strings.Contains(a, "Layers["+n+".Layer].H") {
+			okY = false
+		}
+	}
+	if !okY {
+		bad = append(bad, "bend y = "+y.String()+", expected n.Y + layer height/2")
+	}
+	return bad
+}
+
+// polylineSinglePass: the route's points are produced by one forward loop over all of r.ns that emits exactly one point per
+// node; the iterations that are neither the first nor the last emit the bend formula.
+func polylineSinglePass(il *affLoop, routeVar string) []string {
+	var bad []string
+	if il.container != routeVar+".ns" || il.dir != 1 || !il.full || il.initLin == nil || il.lastLin == nil {
+		return []string{"points are produced by iterating " + il.over + ", expected a forward loop over all of " + routeVar + ".ns"}
+	}
+	one := linConst(1)
+	lastBut := linAtom("len("+il.container+")").add(linConst(2), -1)
+	nInterior := 0
+	for _, bp := range il.paths {
+		var its []affItem
+		for _, v := range bp.emits {
+			its = v
+		}
+		if len(its) != 1 || its[0].star != nil {
+			bad = append(bad, fmt.Sprintf("%d points for one route node on path %v", len(its), bp.cond))
+			continue
+		}
+		if il.keyVar != "" && !scFeasibleOver(bp.sc, il.keyVar, []lin{one, lastBut}, il.container, 3) {
+			continue // first / last iteration only: AFF-1
+		}
+		nInterior++
+		x, y, ok := pointOf(its[0].val)
+		if !ok {
+			bad = append(bad, "bend is not a point")
+			continue
+		}
+		n := il.elem
+		bad = append(bad, bendFormula(x, y, n)...)
+	}
+	if nInterior == 0 {
+		bad = append(bad, "no body path for the intermediate route nodes")
+	}
+	return bad
+}
+
 func runAff2(m *Model, r *RuleResult) {
 	// Straight
 	if res := affRun(m, "internal/phase5", "", dispatchCallee(m, "internal/phase5", "Straight", "execStraightRouting")); res == nil || routerLoop(res) == nil {
@@ -430,6 +618,11 @@ func runAff2(m *Model, r *RuleResult) {
 					continue
 				}
 				nLong++
+				if len(items) == 1 && items[0].star != nil {
+					// single pass over the whole route: one point per route node, the bend formula on interior iterations
+					bad = append(bad, polylineSinglePass(items[0].star, l.valVar)...)
+					continue
+				}
 				if len(items) != 3 || items[0].star != nil || items[1].star == nil || items[2].star != nil {
 					bad = append(bad, fmt.Sprintf("long route is not [start, loop, end] on path %v (%d items)", p.cond, len(items)))
 					continue
@@ -663,7 +856,7 @@ func runAff4(m *Model, r *RuleResult) {
 
 // isLastIndexPath: the structured conditions of the path say that key is the last index of container.
 func isLastIndexPath(p *affState, key, container string) bool {
-	last := linAtom("len(" + container + ")").add(linConst(1), -1)
+	last := linAtom("len("+container+")").add(linConst(1), -1)
 	k := linAtom(key)
 	for _, c := range p.sc {
 		l, ok1 := c.l.(lin)
@@ -1253,6 +1446,25 @@ func splitTop(s, sep string) []string {
 	return append(out, s[start:])
 }
 
+// isExactlySelfLoopTest: the path condition is the test e.From == e.To (either operand order, either polarity spelling)
+// and nothing else.
+func isExactlySelfLoopTest(cs, ev string) bool {
+	t := strings.NewReplacer("(", "", ")", "", " ", "").Replace(cs)
+	neg := 0
+	for strings.HasPrefix(t, "!") {
+		t = t[1:]
+		neg++
+	}
+	a, b := ev+".From", ev+".To"
+	switch t {
+	case a + "==" + b, b + "==" + a:
+		return neg%2 == 0
+	case a + "!=" + b, b + "!=" + a:
+		return neg%2 == 1
+	}
+	return false
+}
+
 func runAff8(m *Model, r *RuleResult) {
 	drvName := dispatchCallee(m, "internal/phase2", "LongestPath", "execLongestPath")
 	folName := "followLongestPath"
@@ -1298,9 +1510,9 @@ func runAff8(m *Model, r *RuleResult) {
 		s := avalString(p)
 		if s == "c:"+hname {
 			// skipped edge: must be the self-loop path
-			cs := strings.Join(hl.paths[i].cond, " ")
-			if !strings.Contains(cs, "From == "+hl.valVar+".To") || strings.HasPrefix(strings.TrimSpace(cs), "!") {
-				okRec, why = false, "an out-edge is skipped under "+cs
+			cs := strings.Join(hl.paths[i].cond, " && ")
+			if !isExactlySelfLoopTest(cs, hl.valVar) {
+				okRec, why = false, "an out-edge is left out of the maximum under the condition "+cs+"; only self-loops (e.From == e.To) may be skipped"
 			}
 			continue
 		}
@@ -1546,8 +1758,34 @@ func runAff9(m *Model, r *RuleResult) {
 				switch x := v.(type) {
 				case *ast.IndexExpr:
 					s := strings.ReplaceAll(types.ExprString(x.Index), " ", "")
-					if s != wantIdx {
-						bad = append(bad, fmt.Sprintf("%s: %s = %s, expected index %s of the path", m.Pos(cl.Pos()), field, types.ExprString(v), wantIdx))
+					base := strings.ReplaceAll(types.ExprString(x.X), " ", "")
+					want := wantIdx
+					if wantIdx != "0" {
+						want = "len(" + base + ")-1"
+					}
+					okIdx := s == want
+					if !okIdx && wantIdx != "0" && efd != nil {
+						// a constant index k is the last one where an enclosing `if len(X) == k+1` says so
+						if tv, isC := info.Types[x.Index]; isC && tv.Value != nil {
+							ast.Inspect(efd.Body, func(n ast.Node) bool {
+								ifs, isIf := n.(*ast.IfStmt)
+								if !isIf || !(ifs.Body.Pos() <= cl.Pos() && cl.End() <= ifs.Body.End()) {
+									return true
+								}
+								if be, isB := ifs.Cond.(*ast.BinaryExpr); isB && be.Op == token.EQL {
+									l := strings.ReplaceAll(types.ExprString(be.X), " ", "")
+									if rv, isC2 := info.Types[be.Y]; isC2 && rv.Value != nil && l == "len("+base+")" {
+										if rv.Value.String() == fmt.Sprint(mustInt(tv.Value.String())+1) {
+											okIdx = true
+										}
+									}
+								}
+								return true
+							})
+						}
+					}
+					if !okIdx {
+						bad = append(bad, fmt.Sprintf("%s: %s = %s, expected index %s of the path", m.Pos(cl.Pos()), field, types.ExprString(v), want))
 					}
 				case *ast.SelectorExpr:
 					if x.Sel.Name != field {
@@ -1621,4 +1859,137 @@ func runAff9(m *Model, r *RuleResult) {
 	} else {
 		r.violation("fit:float-slice-order", pos, "Float64Slice must list p0, p1, p2, p3 as (X, Y) pairs", "order not recognised")
 	}
+}
+
+// ---------- length lower bounds (hypothesis of AFF-1's first/last-iteration reasoning) ----------
+
+// minSliceLen returns a lower bound of len(v) for a slice value: literals, append chains, results of module functions.
+// Loop phis take the minimum over their non-cyclic inputs (an append inside a loop only makes the slice longer).
+func minSliceLen(m *Model, v ssa.Value, seen map[ssa.Value]bool, depth int) int {
+	if v == nil || depth > 6 {
+		return 0
+	}
+	if seen[v] {
+		return 1 << 20 // cyclic input of a phi: never the minimum
+	}
+	seen[v] = true
+	defer delete(seen, v)
+	switch x := v.(type) {
+	case *ssa.ChangeType:
+		return minSliceLen(m, x.X, seen, depth)
+	case *ssa.Slice:
+		// a[:] of a fresh array: slice literal
+		if x.Low == nil && x.High == nil {
+			if al, ok := x.X.(*ssa.Alloc); ok {
+				if at, ok := al.Type().Underlying().(*types.Pointer).Elem().Underlying().(*types.Array); ok {
+					return int(at.Len())
+				}
+			}
+		}
+		return 0
+	case *ssa.Phi:
+		best := 1 << 20
+		for _, e := range x.Edges {
+			if n := minSliceLen(m, e, seen, depth); n < best {
+				best = n
+			}
+		}
+		if best == 1<<20 {
+			return 0
+		}
+		return best
+	case *ssa.Call:
+		if b, ok := x.Call.Value.(*ssa.Builtin); ok && b.Name() == "append" {
+			n := minSliceLen(m, x.Call.Args[0], seen, depth)
+			if len(x.Call.Args) > 1 {
+				n += minSliceLen(m, x.Call.Args[1], seen, depth)
+			}
+			return n
+		}
+		if c := x.Call.StaticCallee(); c != nil && c.Blocks != nil && pkgPathOf(c) != "" {
+			best := 1 << 20
+			eachInstr(c, func(in ssa.Instruction) {
+				if ret, ok := in.(*ssa.Return); ok {
+					for _, rv := range ret.Results {
+						if types.Identical(rv.Type(), x.Type()) {
+							if n := minSliceLen(m, rv, seen, depth+1); n < best {
+								best = n
+							}
+						}
+					}
+				}
+			})
+			if best == 1<<20 {
+				return 0
+			}
+			return best
+		}
+	case *ssa.UnOp:
+		// load of a named result / local slice variable: minimum over the stores into it
+		if x.Op == token.MUL {
+			if al, ok := x.X.(*ssa.Alloc); ok {
+				best := 1 << 20
+				for _, ref := range *al.Referrers() {
+					if st, ok := ref.(*ssa.Store); ok && st.Addr == al {
+						if n := minSliceLen(m, st.Val, seen, depth); n < best {
+							best = n
+						}
+					}
+				}
+				if best == 1<<20 {
+					return 0
+				}
+				return best
+			}
+		}
+	}
+	return 0
+}
+
+// routeMinLen: every construction of a route stores at least two nodes in route.ns.
+func routeMinLen(m *Model, r *RuleResult) {
+	n, bad := 0, []string{}
+	var pos string
+	for _, f := range m.Src {
+		if shortPkg(pkgPathOf(f)) != "internal/phase5" || m.FuncIsPosctl(f) {
+			continue
+		}
+		eachInstr(f, func(in ssa.Instruction) {
+			st, ok := in.(*ssa.Store)
+			if !ok {
+				return
+			}
+			fa, ok := st.Addr.(*ssa.FieldAddr)
+			if !ok {
+				return
+			}
+			_, steps := fieldChain(fa)
+			// the node list of a route: a []*graph.Node field of a struct declared in the routing package
+			if len(steps) == 0 || !strings.HasPrefix(locOfSteps(steps), "internal/phase5.") ||
+				!strings.HasSuffix(steps[len(steps)-1].field().Type().String(), "[]*github.com/nulab/autog/internal/graph.Node") {
+				return
+			}
+			n++
+			if pos == "" {
+				pos = m.Pos(in.Pos())
+			}
+			if k := minSliceLen(m, st.Val, map[ssa.Value]bool{}, 0); k < 2 {
+				bad = append(bad, fmt.Sprintf("%s: route built with at least %d node(s) only", m.Pos(in.Pos()), k))
+			}
+		})
+	}
+	switch {
+	case n == 0:
+		r.undecided("route-min-2", "-", "constructions of route.ns", "none found")
+	case len(bad) == 0:
+		r.holds("route-min-2", pos, fmt.Sprintf("all %d constructions of a route store at least two nodes (so the first and the last node of a route are different iterations)", n))
+	default:
+		r.violation("route-min-2", pos, "every route has at least two nodes", strings.Join(bad, "; "))
+	}
+}
+
+func mustInt(s string) int {
+	n := 0
+	fmt.Sscanf(s, "%d", &n)
+	return n
 }
